@@ -153,12 +153,30 @@ def run(ctx):
                     later_commit = [k for k in commit_nodes if k in cfg.reachable(n) and k is not n]
                     if later_commit:
                         bad.append((destructive, n.lineno, later_commit[0].lineno))
+        # flags that steer this very method (read in one of its conditions) and are switched before a commit: when that commit raises a
+        # transient error the wrapper rolls the rows back and calls the method again, which now takes the "already done" path
+        cond_attrs = set()
+        for x in ast.walk(fn):
+            conds = []
+            if isinstance(x, (ast.If, ast.While, ast.IfExp)):
+                conds = [x.test]
+            elif isinstance(x, ast.comprehension):
+                conds = list(x.ifs)
+            for cnd in conds:
+                cond_attrs |= {a.attr for a in ast.walk(cnd) if isinstance(a, ast.Attribute) and not src(a).startswith("self.session")}
+        for n in cfg.nodes:
+            if n.kind == "stmt" and isinstance(n.ast, ast.Assign) and isinstance(n.ast.value, ast.Constant) and isinstance(n.ast.value.value, bool):
+                for t in n.ast.targets:
+                    if isinstance(t, ast.Attribute) and t.attr in cond_attrs and not src(t).startswith("self.session"):
+                        later_commit = [k for k in commit_nodes if k in cfg.reachable(n) and k is not n]
+                        if later_commit:
+                            bad.append((src(n.ast), n.lineno, later_commit[0].lineno))
         if bad:
             for dsrc, line, cl in bad:
                 r2.violation(
                     f"{db.rel}:RedunBackendDb.{name}:{dsrc[:50]}",
-                    f"`{dsrc}` (line {line}) destroys in-memory backend state before the commit at line {cl}; when that commit raises OperationalError the wrapper "
-                    "rolls back and calls the method again, which no longer finds the state (KeyError / lost record)",
+                    f"`{dsrc}` (line {line}) changes in-memory state that steers this method before the commit at line {cl}; when that commit raises OperationalError the wrapper "
+                    "rolls back and calls the method again, which no longer finds the state / takes the already-recorded path (KeyError, or rows and edges that are never written)",
                     db.rel,
                     line,
                 )
